@@ -591,7 +591,7 @@ let ghost vx_sorted = spans@;
                 decreases spans.len() - vx_j,
 //@proof loopstart #3
                 proof { lemma_chain_step(spans@, vx_j as int); }
-//@proof afterloop #4
+//@proof before "if spans_are_valid {"
             proof {
                 lemma_lift(vx_ops, vx_m, vx_sorted, *key, used_spans@, vx_from, spans_are_valid);
             }
